@@ -11,6 +11,7 @@
 #include "myth_spinlock_func.h"
 #include "myth_misc_func.h"
 #include "myth_mem_barrier_func.h"
+#include "myth_verif.h"
 
 static inline void myth_wsqueue_lock_init(myth_spinlock_t * lock) {
 #if !USE_LOCK
@@ -170,6 +171,7 @@ static inline void __attribute__((always_inline)) myth_queue_push(myth_thread_qu
     } else {
       //Shift pointers
       int offset = (- q->base - 1) / 2;
+      MYTH_VERIF_COV(Q_PUSH_RECENTRE);
       myth_assert(offset < 0);
       memmove(&q->ptr[q->base+offset], &q->ptr[q->base], 
 	      sizeof(myth_thread_t) * (q->top - q->base));
@@ -181,8 +183,10 @@ static inline void __attribute__((always_inline)) myth_queue_push(myth_thread_qu
     myth_wsqueue_lock_unlock(&q->lock);
   }
   //Do not need to extend of move.
+  MYTH_VERIF_POINT(Q_PUSH_BEFORE_SLOT);
   q->ptr[t] = th;
   myth_wsqueue_wbarrier();//Guarantee W-W dependency
+  MYTH_VERIF_POINT(Q_PUSH_BEFORE_TOP);
   q->top = t + 1;
 #if USE_LOCK || USE_LOCK_PUSH
   myth_spin_unlock_body(&q->m_lock);
@@ -209,11 +213,16 @@ static inline myth_thread_t __attribute__((always_inline)) myth_queue_pop(myth_t
   top = q->top;
   top--;
   q->top = top;
+  MYTH_VERIF_EV(Q_STORE_TOP, q, top);
+  MYTH_VERIF_POINT(Q_POP_AFTER_DEC);
   //Decrement and check top
   myth_wsqueue_rwbarrier();
+  MYTH_VERIF_POINT(Q_POP_AFTER_FENCE);
   base = q->base;
+  MYTH_VERIF_EV(Q_LOAD_BASE, q, base);
   if (base + 1 < top){
     ret = q->ptr[top];
+    MYTH_VERIF_COV(Q_POP_FAST);
     //q->ptr[top]=NULL;
 #if USE_LOCK || USE_LOCK_POP
     myth_spin_unlock_body(&q->m_lock);
@@ -222,10 +231,12 @@ static inline myth_thread_t __attribute__((always_inline)) myth_queue_pop(myth_t
     return ret;
   } else {
     myth_wsqueue_lock_lock(&q->lock);
+    MYTH_VERIF_POINT(Q_POP_SLOW_LOCKED);
     base = q->base;
     if (base <= top){//OK
       ret = q->ptr[top];
       q->ptr[top] = NULL;
+      MYTH_VERIF_COV(Q_POP_SLOW_OK);
       if (top <= base) {
 	//invalidate cache
 	myth_wscache_t wc = &q->wc;
@@ -248,6 +259,7 @@ static inline myth_thread_t __attribute__((always_inline)) myth_queue_pop(myth_t
       myth_queue_exit_operation(q);
       return ret;
     } else {
+      MYTH_VERIF_COV(Q_POP_RESET);
       q->top = q->size/2;
       q->base = q->size/2;
       myth_wsqueue_lock_unlock(&q->lock);
@@ -289,15 +301,21 @@ static inline myth_thread_t myth_queue_take(myth_thread_queue_t q)
   }
 #else
   myth_wsqueue_lock_lock(&q->lock);
+  MYTH_VERIF_POINT(Q_TAKE_LOCKED);
 #endif
   //Increment base
   b = q->base;
   q->base = b + 1;
+  MYTH_VERIF_EV(Q_STORE_BASE, q, b + 1);
+  MYTH_VERIF_POINT(Q_TAKE_AFTER_INC);
   myth_wsqueue_rwbarrier();
+  MYTH_VERIF_POINT(Q_TAKE_AFTER_FENCE);
   top = q->top;
+  MYTH_VERIF_EV(Q_LOAD_TOP, q, top);
   if (b < top){
     myth_wsqueue_rbarrier();
     ret = q->ptr[b];
+    MYTH_VERIF_COV(Q_TAKE_OK);
     //q->ptr[b]=NULL;
     myth_wsqueue_lock_unlock(&q->lock);
 #if USE_LOCK || USE_LOCK_TAKE
@@ -305,6 +323,8 @@ static inline myth_thread_t myth_queue_take(myth_thread_queue_t q)
 #endif
     return ret;
   }else{
+    MYTH_VERIF_COV(Q_TAKE_ROLLBACK);
+    MYTH_VERIF_POINT(Q_TAKE_BEFORE_ROLLBACK);
     q->base = b;
     myth_wsqueue_lock_unlock(&q->lock);
 #if USE_LOCK || USE_LOCK_TAKE
@@ -349,8 +369,10 @@ static inline int myth_queue_trypass(myth_thread_queue_t q,myth_thread_t th)
 #endif
   int ret = 1;
   if (!myth_wsqueue_lock_trylock(&q->lock)) return 0;
+  MYTH_VERIF_POINT(Q_PASS_LOCKED);
   if (q->base == 0){
     ret = 0;
+    MYTH_VERIF_COV(Q_PASS_FULL);
   }
   else{
     int b;
@@ -383,6 +405,7 @@ static inline void myth_queue_put(myth_thread_queue_t q, myth_thread_t th)
   myth_spin_lock_body(&q->m_lock);
 #endif
   myth_wsqueue_lock_lock(&q->lock);
+  MYTH_VERIF_POINT(Q_PUT_LOCKED);
   if (q->base == 0){
     /* queue underflow at the bottom. move the contents higher */
     if (q->top == q->size){
@@ -391,6 +414,7 @@ static inline void myth_queue_put(myth_thread_queue_t q, myth_thread_t th)
       abort();
     } else {
       int offset = (q->size - q->top + 1) / 2;
+      MYTH_VERIF_COV(Q_PUT_RECENTRE);
       myth_assert(offset > 0);
       memmove(&q->ptr[q->base + offset], &q->ptr[q->base],
 	      sizeof(myth_thread_t) * (q->top - q->base));
